@@ -98,5 +98,41 @@ pub fn corr(ctx: &mut Ctx) {
         }
         ctx.line(&req, &ans);
     }
+    // the two steps shared by the co-occurrence sorters, on their own: any remapping (permutations, and lists that
+    // are not: duplicates, entries beyond the palette / beyond the 256-entry table) - panics are outcomes
+    for case in 0..ctx.n / 4 {
+        let (w, h) = gen_dims(&mut rng, 12);
+        let (g, _) = gen_grid(&mut rng, 3, 8, w, h);
+        let img = g.pack(false);
+        let n = img.palette.len();
+        let mut remap: Vec<usize> = (0..n).collect();
+        for i in (1..n).rev() {
+            let j = rng.below(i as u64 + 1) as usize;
+            remap.swap(i, j);
+        }
+        match rng.below(8) {
+            0 if n > 0 => { let k = rng.below(n as u64) as usize; remap[k] = rng.below(n as u64 + 2) as usize; }
+            1 => remap.push(rng.below(300) as usize),
+            2 if n > 1 => { remap.pop(); }
+            3 => remap = (0..n).collect(),
+            _ => {}
+        }
+        let oxi = img.to_oxi();
+        let flags: String = remap.iter().map(|v| format!("{} ", v)).collect();
+        if case % 2 == 0 {
+            let r = catch(|| it::palette::verif_apply_palette_reorder(&oxi, &remap));
+            st.count(&format!("reorder_{}", match &r { None => "panic", Some(None) => "none", Some(Some(_)) => "some" }));
+            let req = format!("reduce reorder {}{}", flags, img.to_line());
+            st.distinct_case(req.as_bytes());
+            ctx.line(&req, &show(&r));
+        } else {
+            let mut rm = remap.clone();
+            let r = catch(|| { it::palette::verif_apply_most_popular_color(&oxi, &mut rm); rm.clone() });
+            st.count(&format!("popular_{}", match &r { None => "panic", Some(v) if *v == remap => "unchanged", Some(_) => "rotated" }));
+            let req = format!("reduce popular {}{}", flags, img.to_line());
+            st.distinct_case(req.as_bytes());
+            ctx.line(&req, &match r { None => "panic".to_string(), Some(v) => format!("ok {}", v.iter().map(|x| x.to_string()).collect::<Vec<_>>().join(" ")) });
+        }
+    }
     ctx.write_stats(&st);
 }
